@@ -163,24 +163,28 @@ package primitive
 
 //@ func WriteByte
 //@   prop C03, C02
+//@   assumes tok: result == nil ==> tokn(dest) == old(tokn(dest)) + 1 && tokkind(dest, old(tokn(dest))) == 1 && tokbv(dest, old(tokn(dest))) == uint64(b)
 //@   assigns wstream(dest)
 //@   ensures inmem: inmemory(dest) ==> result == nil
 //@   ensures len: result == nil ==> written(dest) == old(written(dest)) + 1
 //@   ensures bytes: result == nil ==> wbyte(dest, old(written(dest))) == b
 //@ func WriteShort
 //@   prop C03, C02
+//@   assumes tok: result == nil ==> tokn(dest) == old(tokn(dest)) + 1 && tokkind(dest, old(tokn(dest))) == 2 && tokbv(dest, old(tokn(dest))) == uint64(i)
 //@   assigns wstream(dest)
 //@   ensures inmem: inmemory(dest) ==> result == nil
 //@   ensures len: result == nil ==> written(dest) == old(written(dest)) + 2
 //@   ensures bytes: result == nil ==> wbe2(dest, old(written(dest))) == i
 //@ func WriteInt
 //@   prop C03, C02
+//@   assumes tok: result == nil ==> tokn(dest) == old(tokn(dest)) + 1 && tokkind(dest, old(tokn(dest))) == 3 && tokbv(dest, old(tokn(dest))) == uint64(uint32(i))
 //@   assigns wstream(dest)
 //@   ensures inmem: inmemory(dest) ==> result == nil
 //@   ensures len: result == nil ==> written(dest) == old(written(dest)) + 4
 //@   ensures bytes: result == nil ==> wbe4(dest, old(written(dest))) == uint32(i)
 //@ func WriteLong
 //@   prop C03, C02
+//@   assumes tok: result == nil ==> tokn(dest) == old(tokn(dest)) + 1 && tokkind(dest, old(tokn(dest))) == 4 && tokbv(dest, old(tokn(dest))) == uint64(l)
 //@   assigns wstream(dest)
 //@   ensures inmem: inmemory(dest) ==> result == nil
 //@   ensures len: result == nil ==> written(dest) == old(written(dest)) + 8
@@ -189,21 +193,29 @@ package primitive
 // readers: on success exactly the notation's bytes are consumed and the value is the big-endian reading of them
 //@ func ReadByte
 //@   prop C02, C04
+//@   assumes tok: err == nil && old(tokpos(source)) < tokn(source) && tokkind(source, old(tokpos(source))) == 1 ==> tokpos(source) == old(tokpos(source)) + 1 && uint64(decoded) == tokbv(source, old(tokpos(source)))
+//@   assumes tokok: inmemory(source) && old(tokpos(source)) < tokn(source) && tokkind(source, old(tokpos(source))) == 1 ==> err == nil
 //@   assigns rstream(source)
 //@   ensures inmem: inmemory(source) && old(pos(source)) + 1 <= avail(source) ==> err == nil
 //@   ensures bytes: err == nil ==> pos(source) == old(pos(source)) + 1 && decoded == rbyte(source, old(pos(source)))
 //@ func ReadShort
 //@   prop C02, C04
+//@   assumes tok: err == nil && old(tokpos(source)) < tokn(source) && tokkind(source, old(tokpos(source))) == 2 ==> tokpos(source) == old(tokpos(source)) + 1 && uint64(decoded) == tokbv(source, old(tokpos(source)))
+//@   assumes tokok: inmemory(source) && old(tokpos(source)) < tokn(source) && tokkind(source, old(tokpos(source))) == 2 ==> err == nil
 //@   assigns rstream(source)
 //@   ensures inmem: inmemory(source) && old(pos(source)) + 2 <= avail(source) ==> err == nil
 //@   ensures bytes: err == nil ==> pos(source) == old(pos(source)) + 2 && decoded == rbe2(source, old(pos(source)))
 //@ func ReadInt
 //@   prop C02, C04
+//@   assumes tok: err == nil && old(tokpos(source)) < tokn(source) && tokkind(source, old(tokpos(source))) == 3 ==> tokpos(source) == old(tokpos(source)) + 1 && uint64(uint32(decoded)) == tokbv(source, old(tokpos(source)))
+//@   assumes tokok: inmemory(source) && old(tokpos(source)) < tokn(source) && tokkind(source, old(tokpos(source))) == 3 ==> err == nil
 //@   assigns rstream(source)
 //@   ensures inmem: inmemory(source) && old(pos(source)) + 4 <= avail(source) ==> err == nil
 //@   ensures bytes: err == nil ==> pos(source) == old(pos(source)) + 4 && uint32(decoded) == rbe4(source, old(pos(source)))
 //@ func ReadLong
 //@   prop C02, C04
+//@   assumes tok: err == nil && old(tokpos(source)) < tokn(source) && tokkind(source, old(tokpos(source))) == 4 ==> tokpos(source) == old(tokpos(source)) + 1 && uint64(decoded) == tokbv(source, old(tokpos(source)))
+//@   assumes tokok: inmemory(source) && old(tokpos(source)) < tokn(source) && tokkind(source, old(tokpos(source))) == 4 ==> err == nil
 //@   assigns rstream(source)
 //@   ensures inmem: inmemory(source) && old(pos(source)) + 8 <= avail(source) ==> err == nil
 //@   ensures bytes: err == nil ==> pos(source) == old(pos(source)) + 8 && uint64(decoded) == rbe8(source, old(pos(source)))
@@ -217,6 +229,7 @@ package primitive
 // [string]: a [short] n followed by n bytes; [long string]: an [int] n followed by n bytes
 //@ func WriteString
 //@   prop C03, C02
+//@   assumes tok: result == nil && len(s) <= 65535 ==> tokn(dest) == old(tokn(dest)) + 1 && tokkind(dest, old(tokn(dest))) == 5 && tokstr(dest, old(tokn(dest))) == s
 //@   assigns wstream(dest)
 //@   ensures inmem: inmemory(dest) ==> result == nil
 //@   let w0 = written(dest)
@@ -225,6 +238,8 @@ package primitive
 //@   ensures content: result == nil ==> forall k int :: 0 <= k && k < len(s) ==> wbyte(dest, w0 + 2 + k) == s[k]
 //@ func ReadString
 //@   prop C02, C04
+//@   assumes tok: result1 == nil && old(tokpos(source)) < tokn(source) && tokkind(source, old(tokpos(source))) == 5 ==> tokpos(source) == old(tokpos(source)) + 1 && result0 == tokstr(source, old(tokpos(source)))
+//@   assumes tokok: inmemory(source) && old(tokpos(source)) < tokn(source) && tokkind(source, old(tokpos(source))) == 5 ==> result1 == nil
 //@   assigns rstream(source)
 //@   let p0 = pos(source)
 //@   ensures inmem: inmemory(source) && p0 + 2 <= avail(source) && p0 + 2 + int(rbe2(source, p0)) <= avail(source) ==> result1 == nil
@@ -232,6 +247,7 @@ package primitive
 //@   ensures content: result1 == nil ==> forall k int :: 0 <= k && k < len(result0) ==> result0[k] == rbyte(source, p0 + 2 + k)
 //@ func WriteLongString
 //@   prop C03, C02
+//@   assumes tok: result == nil && len(s) <= 2147483647 ==> tokn(dest) == old(tokn(dest)) + 1 && tokkind(dest, old(tokn(dest))) == 6 && tokstr(dest, old(tokn(dest))) == s
 //@   assigns wstream(dest)
 //@   ensures inmem: inmemory(dest) ==> result == nil
 //@   let w0 = written(dest)
@@ -240,6 +256,8 @@ package primitive
 //@   ensures content: result == nil ==> forall k int :: 0 <= k && k < len(s) ==> wbyte(dest, w0 + 4 + k) == s[k]
 //@ func ReadLongString
 //@   prop C02, C04
+//@   assumes tok: result1 == nil && old(tokpos(source)) < tokn(source) && tokkind(source, old(tokpos(source))) == 6 ==> tokpos(source) == old(tokpos(source)) + 1 && result0 == tokstr(source, old(tokpos(source)))
+//@   assumes tokok: inmemory(source) && old(tokpos(source)) < tokn(source) && tokkind(source, old(tokpos(source))) == 6 ==> result1 == nil
 //@   assigns rstream(source)
 //@   let p0 = pos(source)
 //@   ensures inmem: inmemory(source) && p0 + 4 <= avail(source) && (int32(rbe4(source, p0)) <= 0 || p0 + 4 + int(int32(rbe4(source, p0))) <= avail(source)) ==> result1 == nil
@@ -249,6 +267,7 @@ package primitive
 // [bytes]: an [int] n followed by n bytes, n < 0 for null; [short bytes]: a [short] n followed by n bytes
 //@ func WriteBytes
 //@   prop C03, C02
+//@   assumes tok: result == nil && len(b) <= 2147483647 ==> tokn(dest) == old(tokn(dest)) + 1 && tokkind(dest, old(tokn(dest))) == 7 && toknil(dest, old(tokn(dest))) == isnil(b) && toklen(dest, old(tokn(dest))) == len(b) && same(tokwin(dest, old(tokn(dest))), win(b))
 //@   assigns wstream(dest)
 //@   ensures inmem: inmemory(dest) ==> result == nil
 //@   let w0 = written(dest)
@@ -258,6 +277,8 @@ package primitive
 //@   ensures content: result == nil && !isnil(b) ==> forall k int :: 0 <= k && k < len(b) ==> wbyte(dest, w0 + 4 + k) == b[k]
 //@ func ReadBytes
 //@   prop C02, C04
+//@   assumes tok: result1 == nil && old(tokpos(source)) < tokn(source) && tokkind(source, old(tokpos(source))) == 7 ==> tokpos(source) == old(tokpos(source)) + 1 && isnil(result0) == toknil(source, old(tokpos(source))) && len(result0) == toklen(source, old(tokpos(source))) && same(win(result0), tokwin(source, old(tokpos(source))))
+//@   assumes tokok: inmemory(source) && old(tokpos(source)) < tokn(source) && tokkind(source, old(tokpos(source))) == 7 ==> result1 == nil
 //@   assigns rstream(source)
 //@   let p0 = pos(source)
 //@   ensures inmem: inmemory(source) && p0 + 4 <= avail(source) && (int32(rbe4(source, p0)) <= 0 || p0 + 4 + int(int32(rbe4(source, p0))) <= avail(source)) ==> result1 == nil
@@ -266,6 +287,7 @@ package primitive
 //@   ensures content: result1 == nil && int32(rbe4(source, p0)) >= 0 ==> forall k int :: 0 <= k && k < len(result0) ==> result0[k] == rbyte(source, p0 + 4 + k)
 //@ func WriteShortBytes
 //@   prop C03, C02
+//@   assumes tok: result == nil && len(b) <= 65535 ==> tokn(dest) == old(tokn(dest)) + 1 && tokkind(dest, old(tokn(dest))) == 8 && toklen(dest, old(tokn(dest))) == len(b) && same(tokwin(dest, old(tokn(dest))), win(b))
 //@   assigns wstream(dest)
 //@   ensures inmem: inmemory(dest) ==> result == nil
 //@   let w0 = written(dest)
@@ -274,6 +296,8 @@ package primitive
 //@   ensures content: result == nil ==> forall k int :: 0 <= k && k < len(b) ==> wbyte(dest, w0 + 2 + k) == b[k]
 //@ func ReadShortBytes
 //@   prop C02, C04
+//@   assumes tok: result1 == nil && old(tokpos(source)) < tokn(source) && tokkind(source, old(tokpos(source))) == 8 ==> tokpos(source) == old(tokpos(source)) + 1 && len(result0) == toklen(source, old(tokpos(source))) && same(win(result0), tokwin(source, old(tokpos(source))))
+//@   assumes tokok: inmemory(source) && old(tokpos(source)) < tokn(source) && tokkind(source, old(tokpos(source))) == 8 ==> result1 == nil
 //@   assigns rstream(source)
 //@   let p0 = pos(source)
 //@   ensures inmem: inmemory(source) && p0 + 2 <= avail(source) && p0 + 2 + int(rbe2(source, p0)) <= avail(source) ==> result1 == nil
@@ -366,6 +390,7 @@ package primitive
 
 //@ func WriteStringList
 //@   prop C03, C02
+//@   assumes tok: result == nil && len(list) <= 65535 ==> tokn(dest) == old(tokn(dest)) + 1 && tokkind(dest, old(tokn(dest))) == 20 && same(tokval(dest, old(tokn(dest)), list), valof(list))
 //@   assigns wstream(dest)
 //@   let w0 = written(dest)
 //@   invariant #0 sum: written(dest) == w0 + 2 + fold(LengthOfString, list, rangeindex + 1)
@@ -374,6 +399,8 @@ package primitive
 //@   ensures count: result == nil ==> written(dest) >= w0 + 2 && (len(list) <= 65535 ==> wbe2(dest, w0) == uint16(len(list)))
 //@ func ReadStringList
 //@   prop C02, C04
+//@   assumes tok: err == nil && old(tokpos(source)) < tokn(source) && tokkind(source, old(tokpos(source))) == 20 ==> tokpos(source) == old(tokpos(source)) + 1 && same(valof(decoded), tokval(source, old(tokpos(source)), decoded))
+//@   assumes tokok: inmemory(source) && old(tokpos(source)) < tokn(source) && tokkind(source, old(tokpos(source))) == 20 ==> err == nil
 //@   assigns rstream(source)
 //@   let p0 = pos(source)
 //@   ensures count: err == nil ==> len(decoded) == int(rbe2(source, p0))
@@ -385,6 +412,7 @@ package primitive
 
 //@ func WritePositionalValues
 //@   prop C03
+//@   assumes tok: result == nil ==> tokn(dest) == old(tokn(dest)) + 1 && tokkind(dest, old(tokn(dest))) == 24
 //@   assigns wstream(dest)
 //@   let w0 = written(dest)
 //@   invariant #0 sum: written(dest) == w0 + 2 + fold(LengthOfValue, values, rangeindex + 1)
@@ -410,6 +438,7 @@ package primitive
 //@   assumes len: result == abstractLen("bytesmap", m)
 //@ func WriteNamedValues
 //@   prop C03
+//@   assumes tok: result == nil ==> tokn(dest) == old(tokn(dest)) + 1 && tokkind(dest, old(tokn(dest))) == 25
 //@   assigns wstream(dest)
 //@   assumes len: result == nil ==> written(dest) == old(written(dest)) + abstractLen("namedvalues", values)
 //@ func LengthOfNamedValues
@@ -418,6 +447,7 @@ package primitive
 //@   assumes len: err == nil ==> length == abstractLen("namedvalues", values)
 //@ func WriteStringMap
 //@   prop C03
+//@   assumes tok: result == nil && len(m) <= 65535 ==> tokn(dest) == old(tokn(dest)) + 1 && tokkind(dest, old(tokn(dest))) == 21 && same(tokval(dest, old(tokn(dest)), m), valof(m))
 //@   assigns wstream(dest)
 //@   assumes len: result == nil ==> written(dest) == old(written(dest)) + abstractLen("stringmap", m)
 //@ func LengthOfStringMap
@@ -440,3 +470,9 @@ package primitive
 //@   prop C03
 //@   assigns nothing
 //@   assumes len: result1 == nil ==> result0 == abstractLen("reasonmap", reasonMap)
+// [string map] as one token (C01 token view)
+//@ func ReadStringMap
+//@   prop C01, C04
+//@   assumes tok: result1 == nil && old(tokpos(source)) < tokn(source) && tokkind(source, old(tokpos(source))) == 21 ==> tokpos(source) == old(tokpos(source)) + 1 && same(valof(result0), tokval(source, old(tokpos(source)), result0))
+//@   assumes tokok: inmemory(source) && old(tokpos(source)) < tokn(source) && tokkind(source, old(tokpos(source))) == 21 ==> result1 == nil
+//@   assigns rstream(source)
